@@ -504,3 +504,48 @@ prop("C03",
      technique="symbolic path execution of rustc MIR with z3 path feasibility (own encoder): provenance of the arguments of the signing call on every path; native replay with real signature verification",
      trusted=E2_TRUST,
      )
+
+prop("C06",
+     title="Private keys and PRF secrets never appear in anything handed back to callers",
+     engine="mirsym",
+     engines=[_e2.engine], e2=["secrecy"],
+     functions=["Authenticator::get_assertion::{closure#0}, Authenticator::make_credential::{closure#0}, U2fApi::register / authenticate (coroutine bodies, MIR)",
+                "CoseKeyPair::from_secret_key (MIR)", "<Passkey as Debug>::fmt (MIR)", "<PublicKeyCredentialDescriptor as From<Passkey>> / From<&Passkey> (MIR)"],
+     stubs=["every callee is an environment event; declassifying calls (what they output is not examined here): ECDSA sign, verifying_key (public-key derivation), "
+            "get_extensions (its PRF outputs are decided to be the HMAC under C09)"],
+     explanation="information-flow (taint) question on every path, all request flags and all Ok/Err/Pending outcomes of the calls: the Ok and Err values of get_assertion, make_credential, "
+                 "U2F register and U2F authenticate depend on the credential's COSE key parameters, on the generated secret key, on the private half of the key pair and on the stored PRF "
+                 "secrets only through the declassifying calls (results of calls are followed into their arguments and into what their reference arguments point to); the public half built "
+                 "by from_secret_key depends on the secret key only through verifying_key; <Passkey as Debug>::fmt and the Passkey -> descriptor conversions touch no place covering the key "
+                 "parameters or the extension secrets. Every run also performs the native scan (real ceremonies at CTAP2, U2F and WebAuthn-client level; 21 renderings: Debug, pretty Debug, CBOR, "
+                 "JSON, encoded U2F; searched for each secret in raw, hex, decimal-list, base64 and base64url form at every alignment) as the replay of any finding and as a check of the scanner",
+     outside=["the Debug / Serialize implementations of the response types themselves (covered only by the native scan of one ceremony each)", "what the extension processing outputs (C09)",
+              "the client layer's own code (it never holds a Passkey)", "side channels, memory after drop (zeroize)", "values handed to the UserValidationMethod and the CredentialStore (by design they receive the Passkey)"],
+     level_text="PARTIAL claim: an information-flow argument on the MIR of the ceremonies, the key-pair builder, Passkey's Debug and the descriptor conversions; serialisers of response types are only scanned natively.",
+     technique="symbolic path execution of rustc MIR with z3 path feasibility (own encoder): taint propagation through call arguments and pointees on every path; native replay = scan of all renderings",
+     trusted=E2_TRUST,
+     )
+
+# client layer of C02 / C03: data flow of Client::register / Client::authenticate
+PROPS["C02"]["e2"] = ["make_credential", "client_register"]
+PROPS["C02"]["functions"] += ["E2: passkey-client Client::register::{closure#0} and its client-data-hash closure (MIR)", "E2: <Origin as Display>::fmt (MIR)"]
+PROPS["C02"]["explanation"] += (" Client layer (E2, every successful path of Client::register): the collected client data has type Create, challenge = base64url(request.challenge) and "
+                                "origin = Display of the caller's origin (whose Web rendering depends on scheme, host and port); it is serialised once and that string is both what is "
+                                "hashed (unless the caller supplies a hash) and what is returned; assert_domain gets the caller's origin and the request's RP ID and its result is the "
+                                "RP ID sent to the authenticator; user, exclude list and algorithm list (default list only for an empty one) come from the request; up = true; "
+                                "authenticator data, attestation object, DER key and algorithm all descend from the authenticator's auth_data; id = base64url of the bytes returned as "
+                                "rawId = the attested credential id. Violations are replayed by a native relying-party check of a real registration (9 request variants).")
+PROPS["C02"]["outside"] = ["P-256 / SHA-256 / DER / COSE / CBOR / JSON encoders themselves (environment calls; the native relying-party check exercises them on 9 concrete ceremonies only)",
+                           "the contents of the cbor! attestation-object literal (fmt, attStmt)", "extension processing", "store contents after success beyond the credential saved (C07)"]
+PROPS["C02"]["level_text"] = ("PARTIAL claim: algorithm-choice and id-length kernels (E1), data flow of make_credential and of Client::register (E2); the encoders and the cryptography "
+                              "are environment calls and are not decided.")
+PROPS["C02"]["technique"] = "Kani/CBMC bounded model checking (algorithm choice, id length) + symbolic path execution of rustc MIR (data flow of make_credential and Client::register), native replay"
+PROPS["C03"]["e2"] = ["get_assertion", "client_authenticate"]
+PROPS["C03"]["functions"] += ["passkey-client Client::authenticate::{closure#0} and its client-data-hash closure (MIR)", "<Origin as Display>::fmt (MIR)"]
+PROPS["C03"]["explanation"] += (" Client layer (every successful path of Client::authenticate): client data of type Get with base64url(request.challenge) and the caller's origin, serialised "
+                                "once, hashed (unless the caller supplies a hash) and returned; assert_domain's result is the RP ID sent; allow list = the request's; up = true; the returned "
+                                "authenticator data, signature and user handle are the authenticator's; id = base64url(rawId) and rawId = the id of the credential in the authenticator's answer.")
+PROPS["C03"]["outside"] = ["that the ECDSA signature verifies as mathematics (p256 crate), SHA-256, DER, JSON serialisation, the byte layout of AuthenticatorData::to_vec (C12)",
+                           "extension processing", "U2F authenticate (C17)"]
+PROPS["C03"]["level_text"] = ("PARTIAL claim: the binding of signature, key, credential id, authenticator data and client data hash in get_assertion and what Client::authenticate sends and "
+                              "returns, as data flow; cryptography and encoders are environment calls and are not decided.")
